@@ -273,12 +273,13 @@ structure RunSite where
   recv : String
   meth : String
   line : Nat
-  kind : String   -- index | slice | assert | div | panic | must | mapwrite | narrow | deref | nilarg | bigint256 | newcoin | conv | trunc
+  kind : String   -- index | slice | assert | div | panic | must | mapwrite | narrow | deref | nilarg | bigint256 | newcoin | newcoins | callpanic | conv | trunc
   expr : String
   argsType : String     -- the args struct whose `Validate` must entail `req` ("" when there is no requirement)
   req : Option Req
   guarded : Bool        -- a local dominating guard was recognised (or the construct cannot panic: conv / trunc)
   guard : String
+  doms : List String := []   -- conditions of the early returns that dominate the site ("in: c" = enclosing `if c {`)
   deriving Repr
 
 def findArgs (ts : List ArgsType) (n : String) : Option ArgsType := ts.find? (·.name == n)
